@@ -163,6 +163,8 @@ def is_const(node, value):
 
 def call_name(call):
     """Last component of the callee: f(), a.b.f() -> 'f'."""
+    if not isinstance(call, ast.Call):
+        return None
     f = call.func
     if isinstance(f, ast.Name):
         return f.id
